@@ -45,6 +45,9 @@ type Finding struct {
 }
 
 // Ctx collects what one run of one property's check establishes.
+// ProcessStart is when the checker started (loading and type-checking included in the reported wall time).
+var ProcessStart = time.Now()
+
 type Ctx struct {
 	Prop     string
 	Tier     string
@@ -66,7 +69,7 @@ type Ctx struct {
 }
 
 func NewCtx(prop, tier string, seed int64, root string, p *Prog) *Ctx {
-	c := &Ctx{Prop: prop, Tier: tier, Seed: seed, P: p, Root: root, start: time.Now(),
+	c := &Ctx{Prop: prop, Tier: tier, Seed: seed, P: p, Root: root, start: ProcessStart,
 		seen: map[string]int{}, funcs: map[string]bool{}, rules: map[string]string{}, Extra: map[string]any{}}
 	c.loadFindings()
 	return c
@@ -170,14 +173,16 @@ func (c *Ctx) Floor(rule, what string, got, min int) {
 	}
 }
 
-func (c *Ctx) Note(format string, args ...any) { c.notes = append(c.notes, fmt.Sprintf(format, args...)) }
+func (c *Ctx) Note(format string, args ...any) {
+	c.notes = append(c.notes, fmt.Sprintf(format, args...))
+}
 func (c *Ctx) Analysed(f *Func) {
 	if f != nil {
 		c.funcs[f.Name()] = true
 	}
 }
 func (c *Ctx) AnalysedName(n string) { c.funcs[n] = true }
-func (c *Ctx) Sites(n int)          { c.sites += n }
+func (c *Ctx) Sites(n int)           { c.sites += n }
 
 func (c *Ctx) pos(p token.Pos) string {
 	if c.P == nil {
@@ -306,31 +311,31 @@ func (c *Ctx) Finish(explanation string, assumptions []string) int {
 		}
 	}
 	cov := map[string]any{
-		"explanation":            explanation,
-		"obligations":            total,
-		"discharged":             ok,
-		"violated":               viol,
-		"known_findings":         knowns,
-		"undecided":              undec,
-		"rule":                   "obligation = rule instance keyed rule@construct over the type-checked source of /repo's working tree; see rules[]",
-		"rules":                  rules,
-		"samples":                samples,
-		"functions_analysed":     funcs,
-		"functions_analysed_n":   len(funcs),
-		"call_sites":             c.sites,
-		"packages_loaded":        len(pkgs),
-		"instance_floors":        c.floors,
-		"notes":                  c.notes,
-		"exhaustive":             false,
-		"checker_cmd":            fmt.Sprintf("./check.sh %s %s", c.Prop, c.Tier),
-		"trusted_base":           []string{"go/types, go/packages, go/cfg, go/ssa (x/tools v0.50.0, go1.26.8)", "the reference tables in kapcheck/props (hand-written from the property statements)"},
-		"evaluations":            total,
-		"distinct_nontrivial":    len(c.seen),
-		"obligations_per_rule":   perRule,
-		"kapacitor_packages":     pkgs,
-		"violations_listed":      viols,
-		"known_findings_n":       known,
-		"undecided_n":            und,
+		"explanation":             explanation,
+		"obligations":             total,
+		"discharged":              ok,
+		"violated":                viol,
+		"known_findings":          knowns,
+		"undecided":               undec,
+		"rule":                    "obligation = rule instance keyed rule@construct over the type-checked source of /repo's working tree; see rules[]",
+		"rules":                   rules,
+		"samples":                 samples,
+		"functions_analysed":      funcs,
+		"functions_analysed_n":    len(funcs),
+		"call_sites":              c.sites,
+		"packages_loaded":         len(pkgs),
+		"instance_floors":         c.floors,
+		"notes":                   c.notes,
+		"exhaustive":              false,
+		"checker_cmd":             fmt.Sprintf("./check.sh %s %s", c.Prop, c.Tier),
+		"trusted_base":            []string{"go/types, go/packages, go/cfg, go/ssa (x/tools v0.50.0, go1.26.8)", "the reference tables in kapcheck/props (hand-written from the property statements)"},
+		"evaluations":             total,
+		"distinct_nontrivial":     len(c.seen),
+		"obligations_per_rule":    perRule,
+		"kapacitor_packages":      pkgs,
+		"violations_listed":       viols,
+		"known_findings_n":        known,
+		"undecided_n":             und,
 		"deciding_step_is_static": true,
 	}
 	for k, v := range c.Extra {
